@@ -170,7 +170,7 @@ __CPROVER_assigns();
 float g_xp, g_yp; int g_w, g_h;
 void GlobalPlacer_exportPlacement(Circuit *circuit_p, const float *xplace, int xplace_size, const float *yplace, int yplace_size)
 __CPROVER_requires(verif_exc == 0 && 0 <= n && n <= NMAX && __CPROVER_is_fresh(circuit_p, sizeof(Circuit)) && xplace_size == n && yplace_size == n)
-__CPROVER_requires(CFRESH(circuit_p, cellWidth_, n, int) && CFRESH(circuit_p, cellX_, n, int) && CFRESH(circuit_p, cellY_, n, int) && CFRESH(circuit_p, cellIsFixed_, n, bool))
+__CPROVER_requires(CFRESH(circuit_p, cellWidth_, n, int) && CFRESH(circuit_p, cellX_, n, int) && CFRESH(circuit_p, cellY_, n, int) && CFRESH(circuit_p, cellIsFixed_, n, bool) && CFRESH(circuit_p, cellIsObstruction_, n, bool))
 __CPROVER_requires(__CPROVER_is_fresh(xplace, n * sizeof(float)) && __CPROVER_is_fresh(yplace, n * sizeof(float)) && __CPROVER_is_fresh(g_pw, n * sizeof(int)) && __CPROVER_is_fresh(g_ph, n * sizeof(int)))
 __CPROVER_requires(0 <= g && g < n && g_oldx == circuit_p->cellX_[g] && g_oldy == circuit_p->cellY_[g])
 __CPROVER_requires(g_xp == xplace[g] && g_yp == yplace[g] && g_w == g_pw[g] && g_h == g_ph[g] && MAGSZ(g_w) && MAGSZ(g_h))
@@ -185,7 +185,7 @@ __CPROVER_assigns(__CPROVER_object_whole(circuit_p->cellX_), __CPROVER_object_wh
 file = "src/place_global/place_global.cpp"
 head = 'void GlobalPlacer::exportPlacement\(Circuit &circuit,\s*const std::vector<float> &xplace,'
 nloops = 1
-rewrites = [['\bcircuit\.nbCells\(\)', 'Circuit_nbCells(circuit_p)', '1+'], ['\bcircuit\.(isFixed|placedWidth|placedHeight)\(', 'Circuit_\1(circuit_p, ', '1+']]
+rewrites = [['\bcircuit\.nbCells\(\)', 'Circuit_nbCells(circuit_p)', '1+'], ['\bcircuit\.(isFixed|isObstruction|placedWidth|placedHeight|x|y|width|height|orientation)\(', 'Circuit_\1(circuit_p, ', '1+']]
 [[loops]]
 ordinal = 1
 contract = '''
